@@ -140,7 +140,7 @@ func sanitize(s string) string {
 	}, s)
 }
 
-var frameRe = regexp.MustCompile(`github\.com/scrapli/scrapligo/([\w/]+)\.([\w().*]+)`)
+var frameRe = regexp.MustCompile(`github\.com/scrapli/scrapligo/([\w/]+)\.((?:\(\*?\w+\)\.)?[\w.]+)`)
 
 // panicSite returns the first scrapligo frame of a stack ("channel.(*Channel).Close").
 func panicSite(stack string) string {
